@@ -80,6 +80,11 @@ class Rec:
         jac = g if mode in CALLABLE else mode
         self.x0arr = PTS[0].copy()   # the caller keeps (and may overwrite) the array it constructed with
         self.sf = prepare_scalar_function(f, self.x0arr, jac=jac, bounds=(LB, UB), epsilon=1e-7)
+        # a second wrapper, alive at the same time, with other differencing settings and its own objective — never used:
+        # whatever a wrapper needs belongs to the instance (a user may run two optimisations side by side or nested)
+        other = "3-point" if mode != "3-point" else "2-point"
+        self.decoy = prepare_scalar_function(lambda x: 1.0 + 0.5 * float(np.sum(np.asarray(x).real ** 2)), PTS[1].copy() + 0.125, jac=other,
+                                             bounds=(LB - 5.0, UB + 5.0), epsilon=1e-3)
 
 
 def symbols(extra: bool) -> List[Tuple[str, int]]:
